@@ -148,6 +148,9 @@ func renamePtKey(in any, to, from string) error {
 		return fmt.Errorf("key(from) %s not found", from)
 	}
 
+	// the destination is overwritten, whatever kind of key it was
+	pt.Delete(to)
+
 	switch v.PtFlag { //nolint:exhaustive
 	case input.PtField:
 		if v, ok := pt.Fields[from]; ok {
@@ -160,6 +163,10 @@ func renamePtKey(in any, to, from string) error {
 		}
 		delete(pt.Tags, from)
 	}
+
+	// the index entry moves with the key
+	delete(pt.Meta, from)
+	pt.Meta[to] = v
 	return nil
 }
 
